@@ -1,7 +1,7 @@
 (* CollectionsProof.v — proofs about Collections.v (model M) and CollectionsSpec.v (spec S). *)
 From stdpp Require Import gmap list.
 From Coq Require Import NArith ZArith Lia DecimalN DecimalPos.
-Require Import DS.Collections DS.CollectionsSpec DS.CollectionsTables.
+Require Import DS.Collections DS.CollectionsScripts DS.CollectionsSpec DS.CollectionsTables.
 
 (* ---- the take-out / put-back helpers ------------------------------------------------------- *)
 Lemma mutate_list_eq key st handler :
@@ -823,4 +823,137 @@ Proof.
     now rewrite app_length, fmap_length.
   - intros j v Hj. apply (G j v); [exact Hj|]. apply parse_usize_dec.
     apply lookup_lt_Some in Hj. lia.
+Qed.
+
+(* ---- the loop-free script commands, translated by hand, compute what the specification says ---- *)
+Lemma dec_nat_zero n : str_eqb s_zero (dec_nat n) = bool_decide (n = 0%nat).
+Proof.
+  unfold str_eqb. destruct n as [|n].
+  - rewrite !bool_decide_eq_true_2; reflexivity.
+  - rewrite !bool_decide_eq_false_2; [reflexivity|lia|].
+    intros E. pose proof (digits_dec (N.of_nat (S n))) as D. unfold dec_nat in E. rewrite <- E in D.
+    vm_compute in D. injection D as D. lia.
+Qed.
+
+Section ScriptRefine.
+Variable rnd : nat -> handle.
+Variable ord : nat -> list str -> list str.
+Notation step_s := (step_s rnd ord).
+Ltac open_spec := unfold step_s; cbv beta iota zeta delta [spec].
+
+Lemma rs_array_is_empty args s : script_array_is_empty args s = Done (step_s CArrayIsEmpty args s).
+Proof.
+  unfold script_array_is_empty. destruct args as [|h rest]; [reflexivity|].
+  rewrite (r_array_length rnd ord [h] s). open_spec. unfold on.
+  destruct (look_list (hs s) h) as [l| |]; try reflexivity.
+  cbn [apply then_equals_zero default from_option id]. rewrite dec_nat_zero. unfold ok_bool. do 4 f_equal.
+  destruct l; [rewrite !bool_decide_eq_true_2|rewrite !bool_decide_eq_false_2]; done.
+Qed.
+Lemma rs_map_is_empty args s : script_map_is_empty args s = Done (step_s CMapIsEmpty args s).
+Proof.
+  unfold script_map_is_empty. destruct args as [|h rest]; [reflexivity|].
+  rewrite (r_map_size rnd ord [h] s). open_spec. unfold on.
+  destruct (look_map (hs s) h) as [m| |]; try reflexivity.
+  cbn [apply then_equals_zero default from_option id]. rewrite dec_nat_zero. unfold ok_bool. do 4 f_equal.
+  destruct (decide (m = ∅)) as [->|Hne].
+  - rewrite map_size_empty, !bool_decide_eq_true_2; done.
+  - rewrite !bool_decide_eq_false_2; [done|done|]. intros E. apply map_size_empty_inv in E. done.
+Qed.
+Lemma rs_set_is_empty args s : script_set_is_empty args s = Done (step_s CSetIsEmpty args s).
+Proof.
+  unfold script_set_is_empty. destruct args as [|h rest]; [reflexivity|].
+  rewrite (r_set_size rnd ord [h] s). open_spec. unfold on.
+  destruct (look_set (hs s) h) as [x| |]; try reflexivity.
+  cbn [apply then_equals_zero default from_option id]. rewrite dec_nat_zero. unfold ok_bool. do 4 f_equal.
+  destruct (decide (x = ∅)) as [->|Hne].
+  - rewrite size_empty, !bool_decide_eq_true_2; done.
+  - rewrite !bool_decide_eq_false_2; [done|done|]. intros E. apply size_empty_inv in E.
+    apply Hne. now apply leibniz_equiv.
+Qed.
+Lemma rs_map_contains_key args s :
+  script_map_contains_key args s = Done (step_s CMapContainsKey args s).
+Proof.
+  unfold script_map_contains_key. destruct args as [|h [|k rest]]; try reflexivity.
+  rewrite (r_map_get rnd ord [h; k] s). open_spec. unfold on.
+  destruct (look_map (hs s) h) as [m| |]; try reflexivity.
+  cbn [apply then_is_defined]. unfold ok_bool. do 4 f_equal.
+  destruct (m !! k) as [e|]; cbn [fmap option_fmap option_map].
+  - rewrite !bool_decide_eq_true_2; eauto.
+  - rewrite !bool_decide_eq_false_2; [done| |]; intros [? ?]; discriminate.
+Qed.
+
+Theorem step_h_script c args s :
+  loop_free_script c = true -> step_h rnd ord c args s = Done (step_s c args s).
+Proof.
+  intros H. destruct c; try discriminate H; unfold step_h; cbn [step_m step_script];
+    auto using rs_array_is_empty, rs_map_is_empty, rs_set_is_empty, rs_map_contains_key.
+Qed.
+
+(* histories over the proved commands: natives and loop-free scripts *)
+Definition proved (c : cmd) : bool := native c || loop_free_script c.
+Theorem refines_run_proved ops s :
+  Forall (fun o => proved o.1 = true) ops -> run_h rnd ord ops s = Done (run_s rnd ord ops s).
+Proof.
+  intros HF. revert s. induction HF as [|[c args] ops Hc HF IH]; intros s; cbn [run_h run_s].
+  - reflexivity.
+  - assert (E : step_h rnd ord c args s = Done (step_s c args s)).
+    { unfold proved in Hc. cbn [fst] in Hc. apply orb_true_iff in Hc as [Hn|Hl].
+      - now apply step_h_native.
+      - now apply step_h_script. }
+    rewrite E. destruct (step_s c args s) as [r s'].
+    rewrite IH. now destruct (run_s rnd ord ops s').
+Qed.
+
+Theorem refines_script c args s o :
+  step_script c args s = Some o -> o = Done (step_s c args s).
+Proof.
+  destruct c; cbn [step_script]; intros E; try discriminate; injection E as <-;
+    auto using rs_array_is_empty, rs_map_is_empty, rs_set_is_empty, rs_map_contains_key.
+Qed.
+End ScriptRefine.
+
+(* ---- what the specification of the loop scripts means ----------------------------------------- *)
+(* array_contains answers the least index holding the value *)
+Lemma find_index_spec v l : forall i n,
+  find_index v l i = Some n <->
+  exists j, n = (i + j)%nat /\ elem_str <$> l !! j = Some v /\
+            forall j', (j' < j)%nat -> elem_str <$> l !! j' <> Some v.
+Proof.
+  induction l as [|e l IH]; intros i n; cbn [find_index].
+  - split; [discriminate|]. intros (j & _ & H & _). rewrite lookup_nil in H. discriminate.
+  - unfold str_eqb. destruct (decide (elem_str e = v)) as [Ev|Ev].
+    + rewrite bool_decide_eq_true_2 by exact Ev. split.
+      * intros [= <-]. exists 0%nat. split; [lia|]. split; [cbn; now rewrite Ev|intros j' Hj'; lia].
+      * intros (j & -> & Hj & Hmin). destruct j as [|j]; [f_equal; lia|].
+        exfalso. apply (Hmin 0%nat); [lia|]. cbn. now rewrite Ev.
+    + rewrite bool_decide_eq_false_2 by exact Ev. rewrite IH. split.
+      * intros (j & -> & Hj & Hmin). exists (S j). split; [lia|]. split; [exact Hj|].
+        intros [|j'] Hj'; [cbn; congruence|]. apply Hmin. lia.
+      * intros (j & -> & Hj & Hmin). destruct j as [|j]; [cbn in Hj; congruence|].
+        exists j. split; [lia|]. split; [exact Hj|]. intros j' Hj'. apply (Hmin (S j')). lia.
+Qed.
+Lemma find_index_none v l i : find_index v l i = None <-> v ∉ (elem_str <$> l).
+Proof.
+  revert i; induction l as [|e l IH]; intros i; cbn [find_index fmap list_fmap].
+  - split; [intros _ H; inversion H|reflexivity].
+  - unfold str_eqb. destruct (decide (elem_str e = v)) as [Ev|Ev].
+    + rewrite bool_decide_eq_true_2 by exact Ev. split; [discriminate|].
+      intros H. exfalso. apply H. rewrite Ev. apply elem_of_list_here.
+    + rewrite bool_decide_eq_false_2 by exact Ev. rewrite IH. rewrite not_elem_of_cons. tauto.
+Qed.
+(* map_contains_value: some key is bound to the value *)
+Lemma map_values_spec v (m : gmap str elem) :
+  v ∈ map_values m <-> exists k e, m !! k = Some e /\ elem_str e = v.
+Proof.
+  unfold map_values. rewrite elem_of_list_fmap. split.
+  - intros (e & -> & He). apply elem_of_list_fmap in He as ([k e'] & -> & Hk).
+    apply elem_of_map_to_list in Hk. eauto.
+  - intros (k & e & Hk & <-). exists e. split; [reflexivity|].
+    apply elem_of_list_fmap. exists (k, e). split; [reflexivity|]. now apply elem_of_map_to_list.
+Qed.
+(* set_from_array: exactly the items of the array, as text *)
+Lemma set_from_array_spec (l : list elem) v :
+  v ∈ (list_to_set (elem_str <$> l) : gset str) <-> exists e, e ∈ l /\ elem_str e = v.
+Proof.
+  rewrite elem_of_list_to_set, elem_of_list_fmap. split; intros (e & H1 & H2); eauto.
 Qed.
